@@ -131,10 +131,12 @@ def run_mutant(k, fname, site, text, all_checks):
     res = {"k": k, "file": fname, "line": site[0], "func": site[6], "kind": site[5], "old": site[3], "new": site[4]}
     try:
         shutil.copytree("/repo/src", os.path.join(d, "src"))
+        shutil.copytree("/repo/tests", os.path.join(d, "tests"))          # pyproject sets pythonpath = "src" relative to the rootdir,
+        shutil.copy("/repo/pyproject.toml", os.path.join(d, "pyproject.toml"))   # so the tests must run inside the copy
         with open(os.path.join(d, "src/sysloss", fname), "w", newline="") as f:
             f.write(text)
         env = dict(os.environ, PYTHONPATH=os.path.join(d, "src"), PYTHONDONTWRITEBYTECODE="1")
-        p = subprocess.run(["/venv/bin/python", "-m", "pytest", "-x", "-q", "-p", "no:cacheprovider", "--timeout=300"], cwd="/repo", env=env,
+        p = subprocess.run(["/venv/bin/python", "-m", "pytest", "-x", "-q", "-p", "no:cacheprovider", "--timeout=300"], cwd=d, env=env,
                            stdout=subprocess.PIPE, stderr=subprocess.STDOUT, text=True, timeout=900)
         tail = p.stdout.strip().splitlines()[-1] if p.stdout.strip() else ""
         if p.returncode != 0:
